@@ -7,7 +7,7 @@ function reads (nslots, per_slot) is 4.  rtosc_message(...) is recorded (type st
 functions (roundf, expf, ...) are the identity, applications of exp are counted.
 
 Decided per tag and scale over slot values whose mapped value lies below, on, inside and above the bounds:
-   'i' / 'f': exactly one message of that tag carrying clamp(value*(b-a)+a, LO, HI), through exp exactly when the scale
+   'i' / 'f': exactly one message of that tag carrying clamp(value*(b-a)+a, LO, HI) - rounded to the nearest integer for 'i' -, through exp exactly when the scale
               is logarithmic (the bounds of such a parameter are kept as logarithms);
    'T':       exactly one message, "T" or "F" without argument;
    a tag the function does not know, or an unused automation: no message.
@@ -16,17 +16,34 @@ from .. import astlib as A
 from .. import fdeval as FD
 
 MONOTONE = {"roundf", "expf", "round", "exp", "floorf", "ceilf", "lroundf", "lround", "floor", "ceil", "rintf", "nearbyintf"}
-A_, B_ = 1.0, 13.0
-LO, HI = 2.0, 10.0
-VALUES = (-0.25, 0.0, 0.125, 0.5, 0.71875, 0.75, 1.0)        # mapped: -2, 1, 2.5, 7, 9.625, 10, 13
+# (end points a, b of the mapping, bounds lo, hi): a positive range and one that reaches below zero
+SETS = ((1.0, 13.0, 2.0, 10.0), (-7.0, 5.0, -4.0, 3.0))
+VALUES = (-0.25, 0.0, 0.125, 0.375, 0.5, 0.625, 0.71875, 0.75, 1.0)      # mapped (first set): -2, 1, 2.5, 5.5, 7, 8.5, 9.625, 10, 13; (second): -10, -7, -5.5, -2.5, -1, 0.5, 1.625, 2, 5
 
 
-def evaluate(unit, tag, value, scale, used=1):
+def c_round(nm, v):
+    """the C library's rounding functions on a float value"""
+    import math
+    if not isinstance(v, (int, float)) or v != v or v in (float("inf"), float("-inf")):
+        return v
+    if nm in ("roundf", "round", "lroundf", "lround"):
+        return float(math.floor(abs(v) + 0.5)) * (1.0 if v >= 0 else -1.0)        # halves away from zero
+    if nm in ("floorf", "floor"):
+        return float(math.floor(v))
+    if nm in ("ceilf", "ceil"):
+        return float(math.ceil(v))
+    if nm in ("rintf", "nearbyintf"):
+        return float(round(v))                                                      # halves to even (default rounding mode)
+    return v
+
+
+def evaluate(unit, tag, value, scale, used=1, pset=SETS[0]):
     """-> (messages [(type string, [arguments])], number of exp applications)"""
     fn = unit.function("AutomationMgr::setSlotSub")
     ps = unit.params(fn)
     if len(ps) != 3:
         raise FD.Unknown("setSlotSub: parameters (slot, sub, value) not recognised", fn)
+    A_, B_, LO, HI = pset
     leaves = {("used",): used, ("active",): 1, ("param_path",): "/path", ("param_min",): LO, ("param_max",): HI, ("param_type",): ord(tag),
               ("map", "control_scale"): scale, ("map", "upoints"): 2, ("map", "npoints"): 4, ("map", "gain"): 100.0, ("map", "offset"): 0.0,
               ("map", "control_points", 0): 0.0, ("map", "control_points", 1): A_, ("map", "control_points", 2): 1.0, ("map", "control_points", 3): B_}
@@ -110,7 +127,8 @@ def evaluate(unit, tag, value, scale, used=1):
         if nm in MONOTONE and len(vals) == 1:
             if nm.startswith("exp"):
                 exps[0] += 1
-            return vals[0]
+                return vals[0]              # exp is tracked, not computed: the bounds of the model are no logarithms
+            return c_round(nm, vals[0])
         fns = [f for f in unit.functions.get(name, []) if unit.body(f) is not None]
         if not fns:
             fns = [f for q, fl in unit.functions.items() if q.endswith("::" + str(name)) for f in fl if unit.body(f) is not None]
@@ -127,18 +145,22 @@ def check(unit):
     out = {}
     for tag in "if":
         bad, badx, n = [], [], 0
-        for scale in (0, 1):
-            for v in VALUES:
-                n += 1
-                mapped = v * (B_ - A_) + A_
-                want = min(max(mapped, LO), HI)
-                msgs, nexp = evaluate(unit, tag, v, scale)
-                got = msgs[0][1][0] if len(msgs) == 1 and msgs[0][0] == tag and len(msgs[0][1]) == 1 else None
-                ok = got is not None and got == got and (float(got) == want if tag == "f" else int(got) == int(want))
-                if not ok:
-                    bad.append({"slot_value": v, "mapped": mapped, "log_scale": scale, "messages": [[m[0], m[1]] for m in msgs][:3], "expected": want})
-                if nexp != scale:
-                    badx.append({"log_scale": scale, "mapped": mapped, "exp_applied": nexp})
+        for pset in SETS:
+            A_, B_, LO, HI = pset
+            for scale in (0, 1):
+                for v in VALUES:
+                    n += 1
+                    mapped = v * (B_ - A_) + A_
+                    want = min(max(mapped, LO), HI)
+                    if tag == "i":
+                        want = c_round("roundf", want)            # an integer parameter gets the nearest integer
+                    msgs, nexp = evaluate(unit, tag, v, scale, pset=pset)
+                    got = msgs[0][1][0] if len(msgs) == 1 and msgs[0][0] == tag and len(msgs[0][1]) == 1 else None
+                    ok = got is not None and got == got and float(got) == want
+                    if not ok:
+                        bad.append({"slot_value": v, "mapped": mapped, "bounds": [LO, HI], "log_scale": scale, "messages": [[m[0], m[1]] for m in msgs][:3], "expected": want})
+                    if nexp != scale:
+                        badx.append({"log_scale": scale, "mapped": mapped, "exp_applied": nexp})
         out[tag] = {"bad": bad, "bad_exp": badx, "cases": n}
     bad, n = [], 0
     for v in VALUES:
